@@ -24,8 +24,10 @@ from ..irsym import Inconclusive, Machine, Ptr, R, State, fadd, fdiv, fmul, fneg
 from ..ode import lift_literals
 from ..report import Check
 
-SPECIES = {"H": "HI", "D": "DI", "H2": "H2I", "Hp": "HII", "Hm": "HM", "E": "eM", "HE": "HeI"}  # KROME idx name -> naunet alias of that species
-SLOT = {a: i for i, a in enumerate(["HI", "DI", "H2I", "HII", "HM", "eM", "HeI"])}
+SPECIES = {"H": "HI", "D": "DI", "H2": "H2I", "Hp": "HII", "Hm": "HM", "E": "eM", "HE": "HeI",
+           # further one-letter atoms and their ions (the charge suffixes p / m are letters that are element symbols too)
+           "C": "CI", "Cp": "CII", "O": "OI", "Om": "OM", "P": "PI", "Pp": "PII", "Pm": "PM", "S": "SI", "N": "NI"}  # KROME idx name -> naunet alias of that species
+SLOT = {a: i for i, a in enumerate(["HI", "DI", "H2I", "HII", "HM", "eM", "HeI", "CI", "CII", "OI", "OM", "PI", "PII", "PM", "SI", "NI"])}
 USER = ["user_a", "user_crflux"]
 ARRAYS = []  # user arrays indexed by a species index: user_tab(idx_X)
 DERIVED = ["Te", "lnTe", "T32", "invT", "invTe", "sqrTgas"]
@@ -254,6 +256,8 @@ def gen_exprs(n, seed, depth=3):
             "dsqrt(Tgas)", "dlog10(Tgas)*1d-10", "dlog(Tgas)",
             # user arrays indexed by a species index keep their name (only n(idx_X) is the abundance vector)
             "1d-9*user_tab(idx_H)/n(idx_H)", "user_dens(idx_D)+n(idx_D)", "Tgas**user_xi(idx_H)", "user_tab(idx_Hp)*2.0d0", "exp(-user_dens(idx_H)/Tgas)*n(idx_H)", "user_xi(idx_Hm)/user_tab(idx_D)",
+            # one-letter species whose symbol is also a charge suffix (P / p) or sits next to one
+            "n(idx_P)*1d-9", "n(idx_Pp)*1d-9", "n(idx_Pm)*1d-9", "1.0d-9*n(idx_P)/(n(idx_P)+n(idx_H))", "n(idx_C)*n(idx_Cp)", "n(idx_O)+n(idx_Om)", "n(idx_S)*2.d0", "n(idx_N)/Tgas", "3.6D-12*n(idx_P)",
             # a rate that is one bare literal, with more significant digits than a short float format keeps
             "1.0670825d-10", "102124.5d0", "1234567.d0", "3.14159265358979d0", "6.02214076d23", "1.0000001", "9.99999999e-1*1",
             # a power as the right operand of a division (and of a subtraction): it stays one unit
